@@ -277,3 +277,33 @@ pub fn view(d: &DFA, shell: &str) -> View {
     }
     View { states, structure, inputs, nfa, sym_of_input, words, subviews }
 }
+
+/// Region of C09's known finding: a state expects two within-word automata that complgen keeps apart
+/// although they accept exactly the same words (the same alternatives written in a different order).
+/// Counted by the checks that compare against the reference semantics, reported by C09.
+pub static TWIN_REGION_EXCLUDED: std::sync::atomic::AtomicU64 = std::sync::atomic::AtomicU64::new(0);
+
+pub fn equal_language_twin_words(v: &View) -> bool {
+    use crate::model::erase_labels;
+    for row in &v.structure.trans {
+        let subs: Vec<u32> = row.keys().copied().filter(|k| matches!(v.inputs[*k as usize], Inp::Subword { .. })).collect();
+        if subs.len() < 2 {
+            continue;
+        }
+        let mut seen: BTreeMap<String, String> = BTreeMap::new();
+        for k in subs {
+            let Inp::Subword { subdfa, .. } = &v.inputs[k as usize] else { continue };
+            let id = format!("{:?}", subdfa);
+            let Some(sv) = v.subviews.get(&k) else { continue };
+            let words = erase_labels(&sv.nfa.determinize()).canon();
+            if let Some(prev) = seen.get(&words) {
+                if *prev != id {
+                    return true;
+                }
+            } else {
+                seen.insert(words, id);
+            }
+        }
+    }
+    false
+}
